@@ -392,7 +392,10 @@ def gen_content(rng, cls, big):
                 out.append(w); ln += len(w)
             return ''.join(out)[:n]
         record = ' '.join('%012x' % g.getrandbits(48) for _ in range(g.randrange(80, 150))) + '\n'
-        data = (prose(g.randrange(2000, 5000)) + record + prose(dist - len(record)) + record + prose(g.randrange(500, 3000))).encode('ascii')
+        # a short distance only needs the window when the copy starts where the decompressor switches output buffers
+        # (zlib module: first buffer 16 KiB), so the second occurrence is placed at offset 16384 in that case
+        head = 16384 - dist if dist < 16384 else g.randrange(2000, 5000)
+        data = (prose(head) + record + prose(dist - len(record)) + record + prose(g.randrange(500, 3000))).encode('ascii')
         return {'kind': 'bytes', 'hex': data.hex(), 'cls': cls, 'gen': seed}
     if cls == 'big-text':
         seed = rng.randrange(2**32)
